@@ -3,6 +3,7 @@ package main
 import (
 	"fmt"
 	"go/token"
+	"strings"
 	"go/types"
 	"math/big"
 
@@ -241,6 +242,19 @@ func globalConst(st *State, a *AddrV) (SVal, bool) {
 	switch a.Key {
 	case "G|github.com/google/uuid.Nil":
 		return IntLit(0), true
+	}
+	// package-level sentinel errors (var ErrX = errors.New(...)) are non-nil, pairwise distinct and never reassigned (assumed)
+	if isErrorType(a.Type) {
+		name := a.Key[strings.LastIndex(a.Key, ".")+1:]
+		if strings.HasPrefix(name, "Err") {
+			id := st.e.typeID("errvar:" + a.Key)
+			c := st.declare("errvar!"+sanitize(name), SInt)
+			if !st.declared["errvarax:"+a.Key] {
+				st.declared["errvarax:"+a.Key] = true
+				st.assume(Eq(c, IntLit(int64(900000000+id))))
+			}
+			return c, true
+		}
 	}
 	return nil, false
 }
